@@ -22,7 +22,7 @@ RULE = ('file names = product of segment kinds {file names in root, subdir, ., .
         'from a path wildcard. Non-trivial = the name contains a dot-dot, an absolute prefix, a backslash or a sibling name; '
         'distinct = distinct (root spelling, filename).')
 PYOPT = {'quick': 1, 'thorough': 1}     # one unit of every kind is also served by an interpreter started with -O (assert statements compiled out)
-REQUIRED = ['units_run_under_python_-O', 'names_of_more_than_64_segments', 'relative_root_after_chdir', 'head_requests', 'probes_after_serving_another_root', 'served_200', 'denied_403', 'missing_404', 'opens_observed', 'names_with_dotdot', 'names_with_backslash',
+REQUIRED = ['units_run_under_python_-O', 'names_that_are_not_text', 'names_of_more_than_64_segments', 'relative_root_after_chdir', 'head_requests', 'probes_after_serving_another_root', 'served_200', 'denied_403', 'missing_404', 'opens_observed', 'names_with_dotdot', 'names_with_backslash',
             'names_absolute', 'names_sibling_prefix', 'served_content_compared', 'via_wsgi']
 EXHAUSTIVE = {'quick': False, 'thorough': False,
               'quick_note': 'the product units enumerate the name product for <=2 segments completely', 'thorough_note': 'the product units enumerate the name product for <=3 segments completely'}
@@ -64,7 +64,9 @@ def build_tree():
 
 
 SEGMENTS = ['a.txt', 'index.html', 'sub', 'b.txt', 'deep', 'c.bin', '.', '..', '', 'nope', '..hidden', 'back\\slash.txt',
-            'www', 'www2', 'www-private', 'secret.txt', 'wwwx', 'other', 'top-secret.txt']
+            'www', 'www2', 'www-private', 'secret.txt', 'wwwx', 'other', 'top-secret.txt',
+            # characters that only look like dots and separators (compatibility forms): ordinary, if odd, file names
+            '\u2025', '\u2024\u2024', '\uff0e\uff0e', '..\uff0f', '\u2025\uff0ftop-secret.txt']
 
 
 def names(maxseg, base):
@@ -147,6 +149,13 @@ def check_call(ctx, static_file, audit, base, files, real_root, rname, root, nam
         try:
             res = static_file(name, root)
         except Exception as e:  # noqa
+            if not isinstance(name, str):
+                ctx.count('bytes_like_name_refused')      # a name that is no text may be refused outright
+                for p in audit.paths:
+                    rp = os.path.realpath(p if isinstance(p, str) else os.fsdecode(p)) if not isinstance(p, int) else None
+                    if rp is None or not rp.startswith(real_root + os.sep):
+                        ctx.violation('open-outside-root', f'static_file({name!r}, root={rname}) opened {p!r} before raising {e!r}', wit)
+                return
             ctx.violation(f'static_file-raises-{type(e).__name__}', f'static_file({name!r}, root={rname}) raised {e!r}', wit)
             return
     opened = list(audit.paths)
@@ -313,6 +322,21 @@ def product_unit(ctx, unit):
                     check_head(ctx, static_file, base, files, real_root, rname, root, name, wit)
                 if k % 50021 == 0:
                     ctx.sample({'root_spelling': rname, 'filename': show})
+        if unit['shard'] == 0:
+            # names that are not text: bytes, bytearray, memoryview, with bytes that are not UTF-8 next to dots
+            raw = [b'a.txt', b'../top-secret.txt', b'.\xff./top-secret.txt', b'.\x80./www2/a.txt', b'\xc3../top-secret.txt', b'sub/.\xff./.\xff./top-secret.txt',
+                   b'..\xff/top-secret.txt', b'\xff../top-secret.txt', b'sub/b.txt', b'.\xfe.\xff/top-secret.txt']
+            for rname, root in root_spellings(base)[:3]:
+                for nm in raw:
+                    for conv in (bytes, bytearray, memoryview):
+                        name = conv(nm)
+                        ctx.case(('bytes-name', rname, nm, conv.__name__), nontrivial=True)
+                        ctx.count('names_that_are_not_text')
+                        wit = {'unit': {'kind': 'note', 'root': rname, 'name': repr(nm), 'type': conv.__name__}}
+                        try:
+                            check_call(ctx, static_file, audit, base, files, real_root, rname, root, name, wit)
+                        except Exception as e:  # noqa
+                            ctx.violation(f'static_file-result-unusable-{type(e).__name__}', f'{conv.__name__} name {nm!r}: {e!r}', wit)
     finally:
         os.chdir(cwd)
         shutil.rmtree(base, ignore_errors=True)
